@@ -79,6 +79,15 @@ class C09(Prop):
     assumptions = ["virtual clock; executor = harness queue (hook H1)"]
     modelled_not_verified = "all Rust code; same-instant ordering of source events vs. timers is the script's order"
 
+    # translator tie: DebounceObserver / ThrottleObserver and their task functions (compiler-expanded, translated) in
+    # closed form: candidate cell, window task, leading / trailing edges, flush on completion; wiring pinned
+    tie_modules = {
+        "RxModel.GenTie.Debounce": ["debounce"],
+        "RxModel.GenTie.Throttle": ["throttle"],
+        "RxModel.GenTie.WiringDebounce": ["debounce"],
+        "RxModel.GenTie.WiringThrottle": ["throttle"],
+    }
+
     def cases(self, tier, seed):
         rng = random.Random(seed + 9)
         out = []
